@@ -2,7 +2,7 @@
    and satisfiability examples.  Instance: contents are identified by their digest (bytes := oid,
    H := identity), [1] is the empty content, no directory listings. *)
 From Coq Require Import NArith List Bool.
-From DvcData Require Import Base.Val Model.AddSteps Proofs.AddStepsProofs Proofs.AddStepsProgs Proofs.AddStepsRecover Proofs.AddStepsVerify Proofs.AddStepsRecoverVerify Proofs.AddStepsMulti Proofs.AddStepsMultiRecover.
+From DvcData Require Import Base.Val Model.AddSteps Proofs.AddStepsProofs Proofs.AddStepsProgs Proofs.AddStepsRecover Proofs.AddStepsVerify Proofs.AddStepsRecoverVerify Proofs.AddStepsMulti Proofs.AddStepsMultiRecover Proofs.AddStepsVMulti Proofs.AddStepsVTransfer.
 Import ListNotations.
 Open Scope N_scope.
 
@@ -276,4 +276,28 @@ Proof.
   - repeat constructor; simpl; intuition discriminate.
   - apply m_requested; [simpl; intuition | intros o; simpl; intuition].
   - reflexivity.
+Qed.
+
+(* ---- the verified and the hardlink transfer, on the instance z (all hypotheses hold at once) ---- *)
+Example z_vrecover_instance :
+  let p0 := vtransfer_prog N zH 1 (fun n => n + 100) true 0 z_qs z_files z_dir z_w0 in
+  let wc := crash N (run N 1 (firstn 12 p0) z_w0) in
+  let p1 := vtransfer_prog N zH 1 (fun n => n + 100) true 5 z_qs z_files z_dir wc in
+  store_eq N (run N 1 p1 wc) (run N 1 p0 z_w0).
+Proof.
+  intros p0 wc p1.
+  exact (proj1 (proj2 (proj2 (vtransfer_recover N zH zK 1 (fun n => n + 100) eq_refl z_inj
+          true 0 5 z_qs z_qs z_files z_dir z_w0 12 z_inv eq_refl z_files_ok z_dir_ok z_requested z_requested)))).
+Qed.
+Example z_lrecover_instance :
+  let p0 := ltransfer_prog N zH 1 (fun n => n + 100) 0 z_qs z_files z_dir z_w0 in
+  let wc := crash N (run N 1 (firstn 9 p0) z_w0) in
+  let p1 := ltransfer_prog N zH 1 (fun n => n + 100) 5 z_qs z_files z_dir wc in
+  store_eq N (run N 1 p1 wc) (run N 1 p0 z_w0) /\
+  (* killed right after the link of [2]: present, complete, not yet protected *)
+  obj N (run N 1 (firstn 9 p0) z_w0) [2] = Some (mkF 2 false).
+Proof.
+  intros p0 wc p1. split; [|vm_compute; reflexivity].
+  exact (proj1 (proj2 (proj2 (ltransfer_recover N zH zK 1 (fun n => n + 100) eq_refl z_inj
+          0 5 z_qs z_qs z_files z_dir z_w0 9 z_inv eq_refl z_files_ok z_dir_ok z_requested z_requested)))).
 Qed.
